@@ -81,6 +81,11 @@ CLAIMED = {
                      "tick offset and inactive at every point of a running callback; state-graph paths run on the real handlers (60-75 ms periods) with the three callback sections "
                      "gated by hooks and are validated by TLC against the logical clock; ungated random timing scenarios, silence (re-delivery) and panicking event handlers are "
                      "judged by oracles that use wall-clock time only in the sound direction."),
+    "C15": dict(engine="http", design="3/C15", technique="TLA+ model of the HTTP server codec's per-connection loop and response-writer state machine (Http.tla) checked by TLC + trace validation of the real codec with net/http as projection",
+                text="Http.tla models the request loop over a lazily consumed stream, the adapter's deferred finish and the response writer (header, chunked, pooled buffer, close "
+                     "decision); TLC checks one-response-per-request-in-order, the keep-alive rule and close-after-flush over all sequences of <= 3 requests x handler programs; "
+                     "sampled sequences (all shapes, sizes around the 2048-byte buffer, four fragmentations, sync and queued channels) run through the real ServerCodec + Handler, "
+                     "responses are parsed with net/http and each request's outcome is validated by TLC."),
 }
 NA = {}
 for p in props:
@@ -110,6 +115,7 @@ engines = {}
 for pid, c in CLAIMED.items():
     engines.setdefault(c["engine"], []).append(pid)
 ENG = {
+    "http": ("spec/Http.tla + spec/TraceHttp.tla + harness/cmd/driver/http.go", "TLA+ model of the HTTP server codec; TLC exhaustive over request/program sequences; trace validation on the real codec"),
     "idle": ("spec/Idle.tla + spec/TraceIdle.tla + harness/cmd/driver/idle.go", "TLA+ spec of the idle handlers' timer protocol; timed, hook-gated replay and trace validation; one-sided wall-clock oracles"),
     "carrier": ("spec/Carrier.tla + spec/TraceCarrier.tla + harness/cmd/driver/carrier.go", "TLA+ model of ReadFrom/ByteReader over scripted readers; complete replay of the bounded script space"),
     "wire": ("spec/Wire.tla + spec/TraceWire.tla + harness/cmd/driver/wire.go", "exact bufio model; TLC exhaustive sequences; replay + trace validation on the real transport wrappers"),
